@@ -293,6 +293,17 @@ pub fn run(tier: Tier, seed: u64) -> i32 {
                     h.problems[0].goal.fail_at = Some(k);
                     h.params.goal_bias = 0.5;
                     with_kit!(h.problems[0].spec, K, kit => run_one::<K>(&ctx, &mut b, &kit, &h, Trigger::GoalSamplerError));
+                } else if k < 4 {
+                    // PRM has no use for the goal sampler today; should it ever ask (e.g. when
+                    // no milestone lies in a tiny goal region), a failing sampler is an error
+                    // value like any other, not a panic
+                    let mut h = base.clone();
+                    h.problems[0].goal.fail_at = Some(k / 2);
+                    if k % 2 == 1 {
+                        h.problems[0].goal.radius = 1e-9;
+                    }
+                    with_kit!(h.problems[0].spec, K, kit => run_one::<K>(&ctx, &mut b, &kit, &h, Trigger::GoalSamplerError));
+                    b.count("prm_histories_with_failing_goal_sampler", 1);
                 }
             }
             if !prm {
